@@ -182,7 +182,7 @@ def run(chk):
     tier = chk.tier
     rng = chk.rng
     translate_tables.translate(chk)     # the concrete theorems are stated over the tables regenerated from /repo
-    chk.lean_build(['PeptVerif.Props.C12', 'PeptVerif.Props.C12Concrete'], DRV)
+    chk.lean_build(['PeptVerif.Props.C12', 'PeptVerif.Props.C12Concrete', 'PeptVerif.Props.C12Fragment'], DRV)
     quirks = E.probe_quirks()
     chk.notes.append(f'composition-path behaviours shown by the implementation (owned by C02/C03): '
                      f'deltaIgnoresMult={quirks[0]} labileDeltaAnyIon={quirks[1]}')
@@ -376,6 +376,56 @@ def run(chk):
         chk.count('model_vs_model_labelled', sum(1 for t in mm if _ann(t[0][0]).isotope_mods))
     else:
         chk.notes.append('drv_c02 not built: model-vs-model check skipped')
+
+    # ------------------------------------------------------------------ fragment clause in the models: the Fragment model of C04
+    # (drv_c04) with `Env.condenseStatic` taken from THIS driver (the C12 model) on the rule form and on the explicit form:
+    # the two replies must be the same (theorem Props/C12Fragment.fragments_condense); per-residue weights from Python
+    drv4 = os.path.join(core.LEAN, '.lake', 'build', 'bin', 'drv_c04')
+    if os.path.exists(drv4):
+        from . import c04 as C4
+        fcases = []
+        for c in allc[:(120 if not big else 1500)]:
+            a = _ann(c)
+            if a._unknown_mods is not None or a._intervals is not None:
+                continue
+            req = {'ion_types': rng.choice([['b', 'y'], ['b', 'y', 'c', 'z'], ['a', 'x', 'by'], 'y', ['b', 'i']]),
+                   'charges': rng.choice([1, [1, 2], [2, 3]]), 'monoisotopic': rng.random() < 0.7, 'isotopes': rng.choice([0, [0, 1]]),
+                   'water_loss': rng.random() < 0.3, 'ammonia_loss': False, 'losses': None, 'max_losses': 1,
+                   'return_type': 'fragment', 'precision': None}
+            fcases.append((c, req))
+        forms = []
+        for c, req in fcases:
+            a = _ann(c)
+            ex = E.explicit_form(a, _rules(c))
+            forms.append((a, ex, req))
+        pops = []
+        for a, ex, req in forms:
+            for x in (a, ex):
+                y = copy.deepcopy(x)
+                y._labile_mods = None
+                pops.append('condense\t' + annot.dump(y, sort_internal=False))
+        cond = chk.driver(DRV, pops)
+        lines = []
+        for i, (a, ex, req) in enumerate(forms):
+            for j, x in enumerate((a, ex)):
+                base = C4.frag_line(('fragment', annot.dump(x, sort_internal=False), req, None)).split('\t')
+                base[-1] = cond[2 * i + j]          # Env.condenseStatic := the C12 model's answer
+                lines.append('\t'.join(base))
+        rep = chk.driver('drv_c04', lines)
+        st = chk.corr.setdefault('fragment_model_rule_vs_explicit', {'evaluations': 0, 'disagreements': 0, 'samples': []})
+        for i, (a, ex, req) in enumerate(forms):
+            r1, r2 = rep[2 * i], rep[2 * i + 1]
+            st['evaluations'] += 1
+            chk.evaluations += 1
+            if len(st['samples']) < 1:
+                st['samples'].append({'rule_form': annot.dump(a), 'reply': r1[:200]})
+            if r1 != r2 or r1 == 'bad-op':
+                st['disagreements'] += 1
+                if len([d for d in chk.disagreements if d['op'] == 'fragment_model_rule_vs_explicit']) < 5:
+                    chk.disagreements.append({'op': 'fragment_model_rule_vs_explicit', 'line': annot.dump(a),
+                                              'impl': 'explicit form: ' + r2[:800], 'model': 'rule form: ' + r1[:800]})
+    else:
+        chk.notes.append('drv_c04 not built: Fragment-model check skipped')
 
     # ------------------------------------------------------------------ oracle: rule form vs explicit form on the implementation
     osel = allc if chk.broken() or big else allc[:400]
